@@ -15,7 +15,7 @@ FORMULAS = {
     "C06": {"inv": ["C06Done"], "props": ["C06"], "mc_props": ["C06"], "mc_inv": ["C06Done"]},
     "C07": {"inv": [], "props": ["C07"], "mc_props": ["C07"], "mc_inv": []},
     # C08 promises a returned state: a panic from a valid input is a violation of it as well
-    "C08": {"inv": ["C08Range", "C08Exact", "C08Done", "C20NoPanic"], "props": ["C08"], "mc_props": ["C08"],
+    "C08": {"inv": ["C08Range", "C08Exact", "C08Done", "C20NoPanic"], "props": ["C08", "C08Held"], "mc_props": ["C08", "C08Held"],
             "mc_inv": ["C08Range", "C08Done", "C20NoPanic"]},
     "C18": {"inv": ["C18Finish"], "props": ["C18", "C18Zero", "C18Governs"], "mc_props": ["C18", "C18Zero", "C18Governs"], "mc_inv": ["C18Finish"]},
     "C19": {"inv": ["C19Cap", "C19Rel"], "props": ["C19"], "mc_props": ["C19"], "mc_inv": ["C19Cap"]},
